@@ -148,6 +148,9 @@ func fillHistEvidence(cfg *RunCfg, ev *Evidence, cov *Cov) {
 	ev.Coverage["reopens_on_crash_image_inside_delete"] = cov.Get("reopen_on_crash_image_inside_delete")
 	ev.Coverage["crash_image_temp_file_counts"] = cov.SetMembers("crash_image_temp_files", 6)
 	ev.Coverage["multi_pass_calls_stopped_by_backoff"] = cov.Get("multi_stopped")
+	if cfg.Property == "C20" {
+		ev.Coverage["backup_vs_delete"] = cov.Counts("c20conc.")
+	}
 	ev.Coverage["samples"] = cov.Samples()
 	for k, v := range cov.Counts("c1") {
 		ev.Coverage["c1"+k] = v
